@@ -6,6 +6,8 @@ import (
 	"sort"
 	"strings"
 
+	"github.com/go-openapi/spec"
+
 	"verif/gen"
 	"verif/model"
 	"verif/sim"
@@ -18,7 +20,7 @@ type c08 struct{}
 func init() {
 	register(c08{})
 	expectedProbes["C08"] = []string{"strict-error-expected", "strict-no-error-expected", "continue-with-bad-ref", "fault-fired-on-followed-ref", "verbatim-schema-ref-kept",
-		"bad:dangling-doc", "bad:dangling-ptr", "bad:ill-typed", "skip-mode", "transient-run", "two-fault-plan"}
+		"bad:dangling-doc", "bad:dangling-ptr", "bad:ill-typed", "skip-mode", "transient-run", "two-fault-plan", "reuse-sequence", "reuse-later-call-must-fail"}
 }
 
 func (c08) ID() string { return "C08" }
@@ -109,6 +111,33 @@ func (c08) Gen(r *sim.RNG, tier string, idx int) *Scenario {
 		sc.OrderKeys = OrderKeysFor(r.Uint64(), 2)
 		return sc
 	}
+	if r.Bool(0.15) {
+		// a sequence of strict single-element expansions sharing ONE cache under one fault plan:
+		// a document that could not be obtained must stay unobtainable for the later calls too
+		sc.Mix = "reuse-" + []string{"hcache", "lib"}[r.Intn(2)]
+		sc.Opts = Opts{}
+		var defs []string
+		for _, e := range Elements(w) {
+			if strings.HasPrefix(e, "/definitions/") {
+				defs = append(defs, e)
+			}
+		}
+		if len(defs) > 0 {
+			for i := 0; i < 2+r.Intn(3); i++ {
+				sc.Ops = append(sc.Ops, Op{Entry: "ExpandSchemaWithBasePath", Ptr: defs[r.Intn(len(defs))], Cache: "reuse"})
+			}
+			var plan []sim.Fault
+			for _, f := range DrawFaults(w, r, 1+r.Intn(2), c08Kinds, reach.Requested, false) {
+				if ef, ok := exactFault(w, f); ok {
+					plan = append(plan, ef)
+				}
+			}
+			sc.Plans = [][]sim.Fault{plan}
+			sc.OrderKeys = OrderKeysFor(r.Uint64(), 2)
+			return sc
+		}
+		sc.Mix = ""
+	}
 	var cand []string // documents an expansion requests, plus (rarely) others
 	for u := range w.Docs {
 		if u != w.Root {
@@ -179,6 +208,9 @@ func (c08) Run(sc *Scenario) *Verdict {
 	if base := w.Reachable(w.RootNode(), false); base.IllFound {
 		v.Inconclusive = "ill-founded element chain (outside this property's scenarios)"
 		return v
+	}
+	if strings.HasPrefix(sc.Mix, "reuse-") {
+		return c08Reuse(sc, v)
 	}
 	sigs := map[string]bool{}
 	for pi, plan := range sc.Plans {
@@ -293,6 +325,70 @@ func (c08) Run(sc *Scenario) *Verdict {
 	}
 	if v.Evals > 0 {
 		v.Inconclusive = ""
+	}
+	return v
+}
+
+// c08Reuse: strict single-element expansions that share one cache under one fault plan.
+func c08Reuse(sc *Scenario, v *Verdict) *Verdict {
+	w := sc.World
+	plan := sc.Plans[0]
+	for _, f := range plan {
+		if f.URL == w.Root {
+			v.Inconclusive = "fault on the root URL is not modelled by the exact oracle"
+			return v
+		}
+	}
+	eff, parsedFlip := sim.EffectiveDocs(w.Docs, plan)
+	if len(parsedFlip) > 0 {
+		v.Inconclusive = "a flip left valid JSON: not modelled by the exact oracle"
+		return v
+	}
+	weff := &model.World{Docs: eff, Root: w.Root}
+	store := sim.NewStore(w.Docs, plan)
+	for _, k := range sc.OrderKeys {
+		var shared spec.ResolutionCache
+		if sc.Mix == "reuse-lib" {
+			shared = spec.VerifNewSimpleCache()
+		} else {
+			shared = NewHCache()
+		}
+		for oi, op := range sc.Ops {
+			start, ok := weff.NodeAt(w.Root, op.Ptr, model.KSchema)
+			if !ok {
+				continue
+			}
+			reach := weff.Reachable(start, false)
+			res := ExecOp(op, &Env{World: w, Store: store, OrderKey: k, Budget: StepBudgetDefault, Cache: shared})
+			v.Steps += res.Out.Steps
+			v.addFaults(res.Log)
+			if res.Out.Panic != "" {
+				v.Inconclusive = "call did not return: " + res.Out.Panic
+				continue
+			}
+			v.Evals++
+			v.probe("reuse-sequence")
+			if len(reach.Bad) > 0 {
+				v.Sigs = append(v.Sigs, fmt.Sprintf("reuse;%s;op=%d;bad=%s", sc.Mix, oi, badClasses(reach)))
+				if oi > 0 {
+					v.probe("reuse-later-call-must-fail")
+				}
+				if res.Err == nil {
+					h := reach.Bad[0]
+					return v.fail("missed-error-with-reused-cache", "call %d (%s) on a cache already used by %d earlier call(s), order key %d: no error although $ref %q at %s cannot be resolved (%v); plan %v",
+						oi, op.Ptr, oi, k, h.Ref, h.Node.ID(), reach.BadErrs[0], plan)
+				}
+				continue
+			}
+			if res.Err != nil {
+				return v.fail("spurious-error-with-reused-cache", "call %d (%s), order key %d: every $ref is resolvable but the call returned %v; plan %v", oi, op.Ptr, k, res.Err, plan)
+			}
+			wout := WorldWithElement(weff, op.Ptr, res.Value)
+			on, _ := wout.NodeAt(w.Root, op.Ptr, model.KSchema)
+			if m := model.Bisim(weff, start, wout, on, model.Mode{}); m != nil {
+				return v.fail("reuse-bisim-"+m.Clause, "call %d (%s), order key %d: %s", oi, op.Ptr, k, m.Error())
+			}
+		}
 	}
 	return v
 }
